@@ -1,6 +1,7 @@
 mod common;
 mod cursor;
 mod store;
+mod table;
 mod sync_replay;
 mod log_replay;
 mod shimmark;
